@@ -213,7 +213,6 @@ func treeString(ns []*Node) string {
 // then compares everything observable.
 func runTree(tree []*Node, stats map[string]int64) (fs []finding, nontrivial bool) {
 	e := newEnv()
-	A, B := godi.NewCollection(), godi.NewCollection()
 	leaves := flatten(tree, nil, nil)
 	report := func(clause, feature, detail string) {
 		sig := "C20/" + clause
@@ -222,8 +221,34 @@ func runTree(tree []*Node, stats map[string]int64) (fs []finding, nontrivial boo
 		}
 		fs = append(fs, finding{clause, sig, detail})
 	}
+	failIdx, done := compareTwin(e, func(c godi.Collection) error { return c.AddModules(e.moduleOptions(tree)...) }, leaves, stats, report)
+	if !done {
+		return fs, false
+	}
+	stats["trees"]++
+	stats["leaves"] += int64(len(leaves))
+	depth := treeDepth(tree)
+	stats[fmt.Sprintf("trees_depth_%d", depth)]++
+	for _, ev := range e.rec.Events() {
+		if ev.Kind == rt.CtorExit {
+			stats["ctor_exit_events"]++
+		}
+	}
+	applied := len(leaves)
+	if failIdx >= 0 {
+		applied = failIdx
+	}
+	return fs, depth >= 2 && applied >= 2
+}
+
+// compareTwin applies entries to a fresh collection A through apply and the given
+// left-to-right flattening to a fresh collection B through direct calls (stopping at the first
+// error), then compares everything observable. It returns the index of the first failing leaf
+// (-1: none) and whether the comparison ran to the end.
+func compareTwin(e *env, apply func(godi.Collection) error, leaves []flatLeaf, stats map[string]int64, report func(clause, feature, detail string)) (failIdx int, done bool) {
+	A, B := godi.NewCollection(), godi.NewCollection()
 	var errA, errB error
-	failIdx := -1
+	failIdx = -1
 	panicked := ""
 	func() {
 		defer func() {
@@ -231,7 +256,7 @@ func runTree(tree []*Node, stats map[string]int64) (fs []finding, nontrivial boo
 				panicked = fmt.Sprintf("%v", r)
 			}
 		}()
-		errA = A.AddModules(e.moduleOptions(tree)...)
+		errA = apply(A)
 		for i, lf := range leaves {
 			if errB = e.applyDirect(B, lf.Op); errB != nil {
 				failIdx = i
@@ -241,13 +266,10 @@ func runTree(tree []*Node, stats map[string]int64) (fs []finding, nontrivial boo
 		}
 	}()
 	if panicked != "" {
-		report("panic", "", "applying the tree or its flattening panicked: "+panicked)
-		return fs, false
+		report("panic", "", "applying the entries or their flattening panicked: "+panicked)
+		return -1, false
 	}
-	stats["trees"]++
-	stats["leaves"] += int64(len(leaves))
-	depth := treeDepth(tree)
-	stats[fmt.Sprintf("trees_depth_%d", depth)]++
+	stats["applications_compared"]++
 
 	// --- failure: same class, ModuleError once per enclosing named module, cause reachable
 	if (errA == nil) != (errB == nil) {
@@ -301,7 +323,7 @@ func runTree(tree []*Node, stats map[string]int64) (fs []finding, nontrivial boo
 	}
 	if sa.poison || sb.poison {
 		report("panic", "build-or-resolve", "Build or a resolution panicked")
-		return fs, false
+		return failIdx, false
 	}
 	if !sa.sameProvider(sb) {
 		// Build may be non-deterministic for reasons that have nothing to do with modules
@@ -316,7 +338,7 @@ func runTree(tree []*Node, stats map[string]int64) (fs []finding, nontrivial boo
 			for _, y := range bs {
 				if x.poison || y.poison {
 					report("panic", "build-or-resolve", "Build or a resolution panicked")
-					return fs, false
+					return failIdx, false
 				}
 				if x.sameProvider(y) {
 					explained = true
@@ -342,16 +364,7 @@ func runTree(tree []*Node, stats map[string]int64) (fs []finding, nontrivial boo
 	} else {
 		stats["twin_builds_fail_both"]++
 	}
-	for _, ev := range e.rec.Events() {
-		if ev.Kind == rt.CtorExit {
-			stats["ctor_exit_events"]++
-		}
-	}
-	applied := len(leaves)
-	if failIdx >= 0 {
-		applied = failIdx
-	}
-	return fs, depth >= 2 && applied >= 2
+	return failIdx, true
 }
 
 func init() {
@@ -360,7 +373,8 @@ func init() {
 		Level: "exploration",
 		Rule: "cases are random module trees (depth <=4; entries: nil, godi.NewModule named modules incl. empty ones and equal names, unnamed grouping closures, AddSingleton/AddScoped/AddTransient leaves of every C17 form, Remove/RemoveKeyed leaves, failing leaves planted at a uniformly chosen position: duplicate, multi-output collision, nil constructor, Name+Group, entry returning a sentinel). " +
 			"The tree is applied to collection A with AddModules and its left-to-right flattening to collection B with direct calls stopping at the first error; Contains/ContainsKeyed/Count/ToSlice over the universe, Build class, constructors run at Build and the producing constructor of every identity resolved from a fresh scope are compared, and on failure the ModuleError chain (once per enclosing named module, outermost first) and the reachability of the leaf's cause. " +
-			"A case is non-trivial when the tree has nesting depth >=2 and at least 2 leaves took effect; distinct = distinct trees.",
+			"Reuse workload (300 quick / 6000 thorough further cases): the entry lists of a tree are materialised once as []godi.ModuleOption slices with nil entries in the middle, always passed in spread form, and used again: the same tree on a second fresh collection, the slice of every inner module passed to AddModules of another collection, NewModule called twice more on every slice with both module values applied to separate collections; every use is compared with the direct-call twin of the entries as the harness wrote them, and the caller's slices must keep their nil pattern. " +
+			"A case is non-trivial when the tree has nesting depth >=2 and at least 2 leaves took effect (reuse: an entry list has a nil entry before its last position); distinct = distinct trees.",
 		Shards: func(tier string) int { return 16 },
 		Run:    runC20,
 		Assumptions: []string{
@@ -369,7 +383,7 @@ func init() {
 			"Build of one and the same collection can be non-deterministic (creation order of independent singletons); a difference between the twins' providers counts only if 10 builds of each side never agree",
 			"the cause counts as reachable when every typed error / sentinel reachable from the direct call's error (AlreadyRegistered, Validation, Registration, TypeMismatch, ErrConstructorNil, the harness sentinel) is reachable from the AddModules error",
 		},
-		NeedEvents:    []string{"trees", "trees_failing", "module_error_chains_checked", "module_error_levels_checked", "twin_builds_ok", "ctor_exit_events", "causes_checked"},
+		NeedEvents:    []string{"reuse_cases", "reuse_applications", "caller_slices_checked", "reuse_lists_with_inner_nil_entries", "trees", "trees_failing", "module_error_chains_checked", "module_error_levels_checked", "twin_builds_ok", "ctor_exit_events", "causes_checked"},
 		ShardTimeoutS: func(tier string) int { return 900 },
 	})
 }
@@ -403,6 +417,35 @@ func runC20(c *eng.Ctx) {
 			c.R.Sample(map[string]any{"kind": "module-tree", "tree": treeString(tree)})
 		}
 		c.R.End(idx, eng.Hash("c20", treeString(tree)), nt)
+	}
+	// reuse workload: entry slices materialised once, passed in spread form, used again
+	m := c.Pick(300, 6000)
+	for k := 0; k < m; k++ {
+		idx := n + k
+		if !c.Mine(idx) {
+			continue
+		}
+		rng := rand.New(rand.NewSource(c.Seed*9_000_011 + int64(k)))
+		tree := genReuseTree(rng)
+		c.R.Begin(idx)
+		fs, nt := runReuse(tree, stats)
+		seen := map[string]bool{}
+		for _, f := range fs {
+			if seen[f.sig] {
+				continue
+			}
+			seen[f.sig] = true
+			if !lim.allow(f.sig) {
+				stats["violations_not_streamed_same_sig"]++
+				continue
+			}
+			c.R.Violation(eng.Violation{Prop: "C20", Clause: f.clause, Sig: f.sig, Case: idx, CaseID: fmt.Sprintf("reuse-%d", k),
+				Detail: fmt.Sprintf("%s: %s", treeString(tree), f.detail), Replay: map[string]any{"tree": tree, "text": treeString(tree), "workload": "reuse"}})
+		}
+		if k < 2 {
+			c.R.Sample(map[string]any{"kind": "reused-entry-slices", "tree": treeString(tree)})
+		}
+		c.R.End(idx, eng.Hash("c20-reuse", treeString(tree)), nt)
 	}
 	for k, v := range stats {
 		c.R.Count(k, v)
